@@ -345,3 +345,39 @@ func (v *VerifReadOnly) MaybeAdvance(c0, c1 []uint64) (out []string) {
 	}
 	return out
 }
+
+// VerifInfo is a structured read-only view of internals the monitors need.
+type VerifInfo struct {
+	ElectionElapsed  int
+	PendingMsgs      []*pb.Message // r.msgs (not yet handed out); do not modify
+	PendingAfterApp  []*pb.Message // r.msgsAfterAppend; do not modify
+	UnstableEnts     int
+	UnstableSnap     bool
+	UncommittedSize  uint64
+	PendingConfIndex uint64
+	LeadTransferee   uint64
+	Applying         uint64
+	Inflights        map[uint64]VerifInflight
+}
+
+type VerifInflight struct {
+	Count     int
+	Bytes     uint64
+	LastBytes uint64 // bytes of the most recently added message (0 when empty)
+	State     tracker.StateType
+	Paused    bool
+	Pending   uint64 // PendingSnapshot
+}
+
+func (rn *RawNode) VerifInfo() VerifInfo {
+	r := rn.raft
+	vi := VerifInfo{ElectionElapsed: r.electionElapsed, PendingMsgs: r.msgs, PendingAfterApp: r.msgsAfterAppend,
+		UnstableEnts: len(r.raftLog.unstable.entries), UnstableSnap: r.raftLog.unstable.snapshot != nil,
+		UncommittedSize: uint64(r.uncommittedSize), PendingConfIndex: r.pendingConfIndex, LeadTransferee: r.leadTransferee,
+		Applying: r.raftLog.applying, Inflights: map[uint64]VerifInflight{}}
+	for id, pr := range r.trk.Progress {
+		c, b, l := pr.Inflights.VerifStats()
+		vi.Inflights[id] = VerifInflight{Count: c, Bytes: b, LastBytes: l, State: pr.State, Paused: pr.IsPaused(), Pending: pr.PendingSnapshot}
+	}
+	return vi
+}
